@@ -33,8 +33,15 @@ EXC = ["ValueError", "CustomError", "KeyboardInterrupt", "SystemExit", "Generato
        "RecursionError", "OSError", "LookupError", "NotImplementedError", "ImportError", "DDSException",
        "FrozenError", "SlotsError"]
 
+def _feat(cfg, avoid=()):
+    f = gen.swarm_feat(cfg, avoid)
+    f["loads"] = cfg.random() < 0.35      # loads of paths kept earlier in the (failing) evaluation
+    f["p_load_never"] = 0.0
+    return f
+
+
 PROFILE = {
-    "feat": gen.swarm_feat,
+    "feat": _feat,
     "edits": ["var", "ver", "lit", "comment", "unrelated"],
     "n": (3, 8),
     "locations": ["package", "package", "package", "main", "notebook"],
@@ -103,6 +110,10 @@ def run_case(case):
         fired = []
         for o in fails:
             at = o["fail"]["at"]
+            if at + "!fail" not in o["log"] and (o["ref"][0] == "loadmissing" or o.get("early_loads")):
+                # the evaluation is rejected (or fails) because of a dds.load, before the fault point: C09's matter
+                probe("fault_not_reached_load_error")
+                continue
             if at + "!fail" not in o["log"]:
                 probe("fault_not_reached_cached")
                 # the function was served from the store: the evaluation must then succeed normally
